@@ -177,6 +177,8 @@ def check(chk):
     if appends:
         # returns that are not the two sanctioned early exits
         for ret in cfg.nodes_where(lambda n: n.kind == "stmt" and isinstance(n.ast, ast.Return)):
+            if any(cfg.dominates(a.id, ret.id) for a in appends):
+                continue        # a return after the event was enqueued skips nothing that matters (guard-clause form of a trailing `if`)
             facts = dict(cfg.facts_at(ret.id))
             sanctioned = facts.get("self._stopped") is True or (
                 facts.get("callback") is False and any("registered_handlers" in k and v is True and "not in" in k
@@ -190,6 +192,8 @@ def check(chk):
                path=cfg.fmt_path(w, EV) if w else None, construct=f_post.ident, text="fallthrough without append")
         # fast path must not drop events that have a callback / are monitored
         for ret in cfg.nodes_where(lambda n: n.kind == "stmt" and isinstance(n.ast, ast.Return)):
+            if any(cfg.dominates(a.id, ret.id) for a in appends):
+                continue
             facts = dict(cfg.facts_at(ret.id))
             if facts.get("self._stopped") is True:
                 continue
@@ -722,7 +726,7 @@ def _merge_and_condition(chk, f):
         # in the handler loop before the call must be guarded, on every feasible path, by a posted _min_priority,
         # a handler that takes part in blocking, and a *strict* `minimum > handler.priority` comparison
         skips = [x for x in cfg.nodes if x.kind == "stmt" and isinstance(x.ast, ast.Continue) and _in_body(head.ast, x.ast)
-                 and cfg.path_avoiding(x.id, [n.id], [], ignore_exc=True) is not None]
+                 and cfg.path_avoiding(x.id, [n.id], [], ignore_exc=True) is not None and not cfg.dominates(n.id, x.id)]     # a `continue` after the call skips no handler
         cond_tests = {t.id for t in tests}
         for sk in skips:
             dom = cfg.dominators(True).get(sk.id, ())
